@@ -6,7 +6,7 @@ from . import common as C
 
 EVENT_NAMES = {1: 'storage got >1 packet', 2: 'sink ring wrapped', 3: 'filter ring wrapped', 4: 'trailing incomplete window',
                10: 'client consumed part of a multi-frame region', 11: 'client saw frames', 12: 'client held a region across stop/abort', 13: 'held region re-read and compared before unmap',
-               40: 'camera fault injected', 41: 'storage fault injected', 42: 'multi-frame packet at storage', 43: 'device closed while started', 45: 'camera changed its shape during the run', 46: 'second open of a device in use refused', 47: 'device open refused',
+               40: 'camera fault injected', 41: 'storage fault injected', 42: 'multi-frame packet at storage', 43: 'device closed while started', 48: 'packet re-read after a slow append and compared', 45: 'camera changed its shape during the run', 46: 'second open of a device in use refused', 47: 'device open refused',
                20: 'writer slept on a full ring', 21: 'abort arrived while the source was blocked', 22: 'frame delivered after trigger', 24: 're-configured while the streamer was parked'}
 
 
